@@ -19,6 +19,7 @@ var monitors = map[string]func(*vk.Ctx){
 	"C06":   runC06,
 	"C07":   runC07,
 	"C08":   runC08,
+	"C09":   runC09,
 }
 
 func main() {
